@@ -45,7 +45,7 @@ SCENARIOS = {
     'C07': ('C07', 1, 1, '5 histories: four answers in one enqueue_responses batch for two clients; close with a request in flight (after ECONNRESET / after EPIPE), descriptor reuse, late answer; the same at full capacity (10 clients + an eleventh)'),
     'C09': ('C09', 1, 1, '4 histories: the repaired defect; ten half-closed / non-reading clients answered, then an eleventh must be served; a client that never reads a 4 MiB response (polling must return within 20 s, another client is served); requests() never Err'),
     'C11': ('C11', 500, 10000, 'error-inducing prefix A (9 kinds, random segmentation) followed by random B: connection after the error vs new connection'),
-    'C12': ('C12', 300, 5000, 'one read with 1/16/17/40/100/253 descriptors + open-descriptor count after dropping everything; pipelined streams x segmentations x descriptors attached to reads, told apart by numbered files'),
+    'C12': ('C12', 300, 5000, 'one read with 1/16/17/40/100/253 descriptors, 330 accumulated over three reads, descriptors on an empty SEQPACKET message + open-descriptor count after dropping everything; pipelined streams x segmentations x descriptors attached to reads, told apart by numbered files'),
     'C13': ('C13', 1500, 20000, 'random streams with/without Expect x segmentations: queued 100-continue responses against the reference'),
     'C14': ('C14', 3000, 50000, 'grammar-derived slices and corruptions: Request::try_from vs the connection fed the same bytes (+ probe request)'),
     'C15': ('C15', 2000, 20000, 'random header lines/blocks over the 7 names (letter case, SP/HTAB/Unicode padding, values) against a reference of the rules'),
